@@ -335,6 +335,17 @@ TypeOK ==
 \* projection and reconstruction are inverse up to observational equivalence
 ProjectionFaithful == Coherent(Project(ctx))
 
+\* ... and the reconstruction is sound for judging steps: every operation has
+\* the same result and the same observable successor from the reconstructed
+\* state as from the state itself (observational equivalence is a bisimulation)
+AbstractionSound ==
+  \A op \in Ops :
+    Legal(ctx, op) =>
+      LET r1 == Apply(ctx, op)
+          r2 == Apply(Abstract(Project(ctx)), op)
+      IN /\ ResStr(r1.res) = ResStr(r2.res)
+         /\ r1.res.st # "panic" => Project(r1.ctx) = Project(r2.ctx)
+
 \* the environment is exactly the exported visible variables with their values
 EnvExact ==
   LET e == EnvSeq(ctx)
